@@ -1,3 +1,4 @@
 pub mod proof_graph;
 pub mod modules;
 pub mod tms;
+pub mod kb;
